@@ -75,6 +75,30 @@ fn main() {
             }
             std::fs::write(&out, serde_json::to_string(&js).unwrap()).expect("write report");
         }
+        "probe" => {
+            use std::time::Instant;
+            let t = Instant::now();
+            let pool = gen::key_pool(refimpl::sig::Scheme::Toy, 7);
+            eprintln!("key_pool {:?}", t.elapsed());
+            let mut r = util::rng_for(0, &["wdec-fixed"], 0);
+            let rec = gen::random_valid(&mut r, &pool);
+            eprintln!("random_valid {:?}", t.elapsed());
+            let bytes = rec.bytes();
+            eprintln!("bytes {:?} len {}", t.elapsed(), bytes.len());
+            for kt in dec::kts() {
+                let rd = refimpl::decode::ref_decode(&bytes, kt);
+                eprintln!("ref_decode {} {} {:?}", kt.name(), rd.tag(), t.elapsed());
+                let o = dec::decode_kt(kt, &bytes);
+                eprintln!("decode {} {} {:?}", kt.name(), o.res.is_ok(), t.elapsed());
+            }
+            let mut ctx = Ctx::new("C03", "quick", 1, 0, 1, 1000.0);
+            decmon::judge_input(&mut ctx, "valid", &bytes, decmon::JudgeOpts { text: false });
+            eprintln!("judge_input no text {:?}", t.elapsed());
+            decmon::judge_input(&mut ctx, "valid", &bytes, decmon::JudgeOpts { text: true });
+            eprintln!("judge_input text {:?}", t.elapsed());
+            let m = gen::structural_mutants(&rec, &mut r);
+            eprintln!("structural_mutants {} {:?}", m.len(), t.elapsed());
+        }
         "replay" => {
             if args.len() < 3 {
                 usage();
